@@ -9,4 +9,4 @@ CONSTANTS
   Small = FALSE
   Avoid = FALSE
   SimK = 1
-  Acts = {"dset", "oset", "rebind", "ddel", "batch", "lset", "ldel", "slice", "lins", "inplace"}
+  Acts = {"dset", "oset", "rebind", "ddel", "batch", "lset", "ldel", "slice", "lins", "inplace", "ctor"}
